@@ -91,6 +91,10 @@ type Options struct {
 	// RoundTrip: serialise the parsed definitions, parse that again, compare the two
 	// models structurally and run the instance on the re-parsed model (C15)
 	RoundTrip bool
+	// Concurrent: after the schedule, answer every pending request from its own
+	// goroutine, deliver awaited events from goroutines, and keep reading variables,
+	// waiting and (un)subscribing from further goroutines meanwhile (C17)
+	Concurrent bool
 }
 
 func DefaultOptions() Options {
@@ -461,7 +465,9 @@ func Run(runIdx int, p *prog.Program, sch *Schedule, o Options) []Rec {
 			}
 		}
 	}
-	if o.Auto && startOK && !aborted {
+	if o.Concurrent && startOK && !aborted {
+		r.concurrent(ctx, inst, o, rng)
+	} else if o.Auto && startOK && !aborted {
 		r.auto(inst, o, rng)
 	}
 
@@ -860,4 +866,130 @@ func (r *runner) auto(inst *bpmn.Process, o Options, rng *rand.Rand) {
 		}
 		budget--
 	}
+}
+
+// concurrent drives the instance from many goroutines at once.
+func (r *runner) concurrent(ctx context.Context, inst *bpmn.Process, o Options, rng *rand.Rand) {
+	stop := make(chan struct{})
+	var noise sync.WaitGroup
+	for g := 0; g < 4; g++ {
+		noise.Add(1)
+		go func(g int) {
+			defer noise.Done()
+			for {
+				select {
+				case <-stop:
+					return
+				default:
+				}
+				switch g {
+				case 0:
+					_ = inst.Locator().CloneVariables()
+					_ = inst.Locator().CloneItems("$")
+					_ = inst.Locator().CloneItems(".")
+					_ = inst.Locator().CloneItems("#")
+				case 1:
+					wctx, wc := context.WithTimeout(context.Background(), time.Millisecond)
+					inst.WaitUntilComplete(wctx)
+					wc()
+				case 2:
+					ch := inst.Tracer().SubscribeChannel(make(chan tracing.ITrace, 64))
+					time.Sleep(200 * time.Microsecond)
+					inst.Tracer().Unsubscribe(ch)
+				case 3:
+					_, _ = inst.Locator().GetVariable("v1")
+				}
+				time.Sleep(100 * time.Microsecond)
+			}
+		}(g)
+	}
+	delivered := map[string]int{}
+	idle := 0
+	var doers sync.WaitGroup
+	for budget := 0; budget < 600 && idle < 60; budget++ {
+		r.mu.Lock()
+		if r.cnt["cease"] > 0 {
+			r.mu.Unlock()
+			break
+		}
+		type job struct {
+			q    *pendingReq
+			id   string
+			vars map[string]int
+		}
+		var jobs []job
+		for id, l := range r.reqs {
+			for _, q := range l {
+				if !q.answered {
+					vars := map[string]int{}
+					if n := r.p.Node(id); n != nil {
+						for _, w := range n.Writes {
+							if d := r.p.Dom[w]; len(d) > 0 {
+								vars[w] = d[rng.Intn(len(d))]
+							}
+						}
+					}
+					q.answered = true
+					r.add(Rec{Ev: "ans", Node: id, Occ: q.occ, Vars: copyVars(vars)})
+					jobs = append(jobs, job{q, id, vars})
+				}
+			}
+		}
+		// deliver the event of every catch event that announced it listens
+		type dl struct{ k, ref string }
+		var dls []dl
+		for _, n := range r.p.Nodes {
+			if (n.Kind == "catch" || n.Kind == "boundary") && len(n.Evs) > 0 {
+				want := r.cnt["listen:"+n.Id]
+				if n.Kind == "boundary" {
+					want = r.cnt["active:"+n.Attached]
+				}
+				if delivered[n.Id] < want {
+					delivered[n.Id]++
+					e := n.Evs[delivered[n.Id]%len(n.Evs)]
+					r.add(Rec{Ev: "deliverx", Kind: e.K, Node: e.Ref})
+					dls = append(dls, dl{e.K, e.Ref})
+				}
+			}
+		}
+		r.mu.Unlock()
+		if len(jobs) == 0 && len(dls) == 0 {
+			idle++
+			time.Sleep(3 * time.Millisecond)
+			continue
+		}
+		idle = 0
+		for _, j := range jobs {
+			j := j
+			doers.Add(1)
+			go func() {
+				defer doers.Done()
+				res := map[string]any{}
+				for k, v := range j.vars {
+					res[k] = v
+				}
+				j.q.tt.Do(bpmn.DoWithResults(res), bpmn.DoWithObjects(map[string]any{"obj": len(res)}))
+			}()
+		}
+		for _, d := range dls {
+			d := d
+			doers.Add(1)
+			go func() {
+				defer doers.Done()
+				var ev event.IEvent
+				if d.k == "message" {
+					ev = event.NewMessageEvent(d.ref, nil)
+				} else {
+					ev = event.NewSignalEvent(d.ref)
+				}
+				_, _ = inst.ConsumeEvent(ev)
+				r.mu.Lock()
+				r.add(Rec{Ev: "delivered", Kind: d.k, Node: d.ref})
+				r.mu.Unlock()
+			}()
+		}
+	}
+	callWithin(o.T, doers.Wait)
+	close(stop)
+	noise.Wait()
 }
